@@ -125,6 +125,10 @@ def suite_ops(rng, n, kinds=KINDS):
             elif r < 0.5:
                 a = _rv(rng, kind)
                 b = ("R", kind, a[2], a[3], gen.fresh_id(), None)
+            elif r < 0.6:
+                # one player at two moments: the same id (a deepcopy snapshot keeps it), other numbers
+                a, b = _rv(rng, kind), _rv(rng, kind)
+                b = ("R", kind, b[2], b[3], a[4], a[5])
             elif r < 0.75:
                 a, b = _rv(rng, kind), _rv(rng, kind)
             else:
